@@ -147,8 +147,9 @@ def apply_fs(box, ev):
 class Live:
     """one long-lived enforcer with its own files, driven along a history"""
 
-    def __init__(self, rng, variant, enforce_new, defaults=None, via='enforce', overwrite=True, warn=None, box=None, late=False, dup_dirs=False):
-        self.box = box if box is not None else fsbox.Box(rng)
+    def __init__(self, rng, variant, enforce_new, defaults=None, via='enforce', overwrite=True, warn=None, box=None, late=False, dup_dirs=False,
+                 make_dirs=None):
+        self.box = box if box is not None else fsbox.Box(rng, make_dirs=(rng.random() < 0.7) if make_dirs is None else make_dirs)
         self.rng = rng
         self.own_box = box is None
         self.peers = [self]                 # every enforcer reading the same files records every file event
@@ -159,7 +160,7 @@ class Live:
         self.dup_dirs = dup_dirs
         self.e = new_enforcer(self.box, variant, enforce_new, self.defaults, overwrite, warn=self.warn, nreg=0, dup_dirs=dup_dirs)
         self.roles = ['dflt', 'old', 'nobody', 'n'] + [f + '@fixed' for f in MUTABLE]
-        self.trace = []
+        self.trace = [{'op': 'boot', 'de': 1 if self.box.make_dirs else 0}]
         self.last_print = None
         self.synced = False
         self.nreg = 0
@@ -256,7 +257,11 @@ class Live:
 def run_history(rng, variant, enforce_new, history, via='enforce', defaults=None, overwrite=True, late=False, dup_dirs=False):
     """history: list of ('write', f, kind) / ('empty'|'touch'|'delete', f) /
     ('ignored', f) / ('load', force).  Returns the recorded trace."""
-    lv = Live(rng, variant, enforce_new, via=via, defaults=defaults, overwrite=overwrite, late=late, dup_dirs=dup_dirs)
+    # (a changed enforce_new_defaults option takes effect at the next rebuild of the rule store; without a main
+    #  file and without any existing directory there is nothing to rebuild from - histories that change the
+    #  option run with the directories in place)
+    lv = Live(rng, variant, enforce_new, via=via, defaults=defaults, overwrite=overwrite, late=late, dup_dirs=dup_dirs,
+              make_dirs=True if any(op[0] == 'setopt' for op in history) else None)
     try:
         for ev in history:
             lv.step(ev)
